@@ -50,6 +50,7 @@ type ogmHist struct {
 	lastGC int
 	gen    int
 	since  int // fires recorded since the last set-up / rebuild
+	slow   time.Duration // the completion callback dwells this long after recording its fire (overlap regime)
 }
 
 func partsStr(st open_game_manager.OpenGameState) string {
@@ -81,7 +82,11 @@ func (h *ogmHist) newManager(fromState *open_game_manager.OpenGameState) {
 			h.fires = append(h.fires, ogmFire{state.GameCount, partsStr(state)})
 			h.since++
 		}
+		d := h.slow
 		h.mu.Unlock()
+		if d > 0 {
+			time.Sleep(d) // like tableGameOpen, which can hold on for seconds
+		}
 	}
 	if fromState == nil {
 		h.m = open_game_manager.NewOpenGameManager(open_game_manager.OpenGameOption{Timeout: h.tmo, OnOpenGameReady: cb})
@@ -195,6 +200,59 @@ func genOGMHistory(r *rand.Rand, st *ogmStats, hid int, allowTimeout bool) strin
 			st.Timeouts++
 			h.line("ogm timeout")
 			st.OpMix["timeout"]++
+		case x >= 93 && x < 96 && h.tmo == 0:
+			// overlap: the next set-up arrives while the previous set-up's completion callback is still running (the engine's
+			// callback is tableGameOpen, which can take seconds); the new set-up must work like any other
+			setup := func(n int) []int {
+				gc++
+				parts := map[string]int{}
+				ps := []string{}
+				ids := []int{}
+				base := r.Intn(50) * 10
+				for i := 0; i < n; i++ {
+					id := base + i + 1
+					parts[pid(id)] = i
+					ps = append(ps, fmt.Sprintf("%d:%d", id, i))
+					ids = append(ids, id)
+				}
+				h.mu.Lock()
+				h.since = 0
+				h.mu.Unlock()
+				h.m.Setup(gc, parts)
+				h.line("ogm setup gc=%d parts=%s", gc, strings.Join(ps, ","))
+				st.OpMix["setup"]++
+				st.Ops++
+				h.obs()
+				return ids
+			}
+			readyAll := func(ids []int) {
+				for _, i := range r.Perm(len(ids)) {
+					err := h.m.Ready(pid(ids[i]))
+					res := "ok"
+					if err != nil {
+						res = "err notfound"
+					}
+					h.line("ogm ready id=%d | %s", ids[i], res)
+					st.OpMix["ready"]++
+					st.Ops++
+					h.obs()
+				}
+			}
+			a := setup(1 + r.Intn(3))
+			h.mu.Lock()
+			h.slow = 60 * time.Millisecond
+			h.mu.Unlock()
+			readyAll(a) // the last signal starts the callback, which records its fire and dwells
+			b := setup(1 + r.Intn(3))
+			h.mu.Lock()
+			h.slow = 0
+			h.mu.Unlock()
+			time.Sleep(70 * time.Millisecond) // the first callback has returned
+			readyAll(b)
+			current = append(current[:0], b...)
+			sharedNow = false
+			st.OpMix["setup-during-callback"]++
+			continue
 		case x < 93 && !sharedNow: // (a saved state with two ids on one index is rebuilt in map order: not replayable)
 			s := h.m.GetState()
 			h.newManager(&s)
